@@ -46,7 +46,95 @@ def strategy(tier):
     })
 
 
+def run_real(case):
+    """engine R slice: hostile streams over real sockets (incl. abrupt resets) against one real worker per class: the worker pid
+    must stay the same and keep serving; every reply is empty, an application response, or a well-formed error page"""
+    import socket
+    import struct
+    from vlib import renv
+    kind = case["kind"]
+    srv = renv.Server(kind=kind, workers=1, bind="tcp", graceful=2, timeout=30, threads=2 if kind == "gthread" else None, keepalive=1)
+    vio = []
+    n = 0
+    try:
+        if not srv.wait_ready():
+            return Outcome([], False, ["engine:R", "inconclusive:not-ready"])
+        before = srv.workers()
+        items = fx()
+        step = case.get("stride", 97)
+        k = case.get("offset", 0)
+        for fi, (name, data) in enumerate(items):
+            for off in sorted(set([len(data), (k + fi * step) % (len(data) + 1)] + ([len(data) // 2] if case.get("deep") else []))):
+                payload = data[:off]
+                n += 1
+                try:
+                    c = srv.connect(3.0)
+                except OSError as e:
+                    vio.append(Violation("worker-lives", "C05/real:connect-failed-during-hostile-run", observed={"after": n, "error": str(e)}))
+                    break
+                try:
+                    mode = (fi + off) % 3
+                    if payload:
+                        try:
+                            c.sendall(payload)
+                        except OSError:
+                            pass
+                    if mode == 0:
+                        c.setsockopt(socket.SOL_SOCKET, socket.SO_LINGER, struct.pack("ii", 1, 0))    # RST on close
+                        c.close()
+                        continue
+                    if mode == 1:
+                        try:
+                            c.shutdown(socket.SHUT_WR)
+                        except OSError:
+                            pass
+                    reply, err = renv.read_all(c, 0.25 if mode == 2 else 4.0)
+                finally:
+                    try:
+                        c.close()
+                    except OSError:
+                        pass
+                if reply:
+                    pos = 0
+                    okwire = True
+                    while pos < len(reply):
+                        r = ref_response.parse_response(reply, pos, "GET")
+                        if r is None or not r.ok or r.errors or (not r.complete and err is None):
+                            okwire = False
+                            break
+                        if r.status == 100:
+                            pos = r.end
+                            continue
+                        if not r.complete or r.end is None:
+                            break
+                        if r.status >= 400 and r.header(b"connection") != [b"close"] and not r.header(b"x-pid"):
+                            okwire = False
+                            break
+                        pos = r.end
+                    if not okwire:
+                        vio.append(Violation("wire-grammar", "C05/real:malformed-reply",
+                                             observed={"fixture": name, "offset": off, "reply": reply[:300], "kind": kind}, expected="well-formed responses"))
+                        break
+            if vio:
+                break
+        after = srv.workers()
+        if not vio and after != before:
+            vio.append(Violation("worker-lives", "C05/real:worker-replaced-during-hostile-run:" + kind,
+                                 observed={"before": before, "after": after, "log_tail": srv.logtext()[-1500:]}, expected="same worker pid"))
+        if not vio:
+            r, data, err = srv.request("/pid", timeout=5)
+            if r is None or not (r.ok and r.status == 200):
+                vio.append(Violation("worker-lives", "C05/real:not-serving-after-hostile-run:" + kind, observed={"error": err}, expected="200"))
+        return Outcome(vio, True, ["engine:R", "kind:" + kind], key="R|" + kind, sample={"case": case, "connections": n},
+                       counts={"real-connections": n})
+    finally:
+        srv.cleanup()
+
+
 def extra_cases(tier, seed, shard, nshards):
+    for i, k in enumerate(wenv.KINDS):
+        if (i + seed) % nshards == shard:
+            yield {"engine": "R", "kind": k, "offset": seed * 13 + 5, "stride": 97, "deep": tier == "thorough"}
     stride = 8 if tier == "quick" else 1
     n = 0
     for fi, (name, data) in enumerate(fx()):
@@ -70,6 +158,8 @@ ERR_HEAD = re.compile(rb"^HTTP/1\.1 ([45]\d\d) [A-Za-z ]+\r\nConnection: close\r
 
 
 def run_case(case):
+    if case.get("engine") == "R":
+        return run_real(case)
     if "fixture" in case:
         data = dict(fx())[case["fixture"]][:case["offset"]]
     else:
